@@ -40,7 +40,7 @@ func encodeBytes(img image.Image, o *webp.EncoderOptions) ([]byte, error) {
 // unperturbed single-worker run and the recorded claim/process/record trace must be accepted by the
 // Lean RowPipe model (every guard true); (ii) concurrent use of the public API equals solo results.
 func suiteSched(rep *Report) error {
-	rep.Rule = "(i) lossy Encode (Method>=3, >=4 macroblock rows => row pipeline) with GOMAXPROCS 2..8 and seeded Gosched/sleep/stall perturbation at every hook point; bytes compared with the GOMAXPROCS=1 unperturbed run; event trace validated against the Lean RowPipe guards (op pipetrace); (ii) N goroutines calling Encode/Decode/DecodeConfig/GetFeatures/animation/mux concurrently vs solo results, incl. per round 4 pairs of different pictures with equal macroblock dimensions whose lossy encodes take the serial path (Method >= 3 with < 4 macroblock rows, or a size target) and so compete for the same pooled encoders; non-trivial = run used >= 2 workers and hit the slow wait path or had overlapping rows"
+	rep.Rule = "(i) lossy Encode (Method>=3, >=4 macroblock rows => row pipeline) with GOMAXPROCS 2..8 and seeded Gosched/sleep/stall perturbation at every hook point; bytes compared with the GOMAXPROCS=1 unperturbed run; event trace validated against the Lean RowPipe guards (op pipetrace); (i-c) a lossless Encode parked inside its writer's first Write (or writing through a yielding chunking writer / an io.Pipe with a slow consumer) while three other encodes run, under GOMAXPROCS(1) and the value in force: every call's bytes equal its solo bytes and decode; (ii) N goroutines calling Encode/Decode/DecodeConfig/GetFeatures/animation/mux concurrently vs solo results, incl. per round 4 pairs of different pictures with equal macroblock dimensions whose lossy encodes take the serial path (Method >= 3 with < 4 macroblock rows, or a size target) and so compete for the same pooled encoders; non-trivial = run used >= 2 workers and hit the slow wait path or had overlapping rows"
 	defer runtime.GOMAXPROCS(runtime.GOMAXPROCS(0))
 	n := 60
 	if rep.Tier == "thorough" {
@@ -190,6 +190,18 @@ func suiteSched(rep *Report) error {
 	// swept phase; every handshake must complete (a lost wake-up parks the waiter forever)
 	if dl := rowSyncStress(rep); dl {
 		return nil
+	}
+
+	// (i-c) calls that overlap an Encode parked inside (or yielding in) its writer's Write: every call's
+	// bytes must equal its solo bytes (suite_writer.go parkedWriterLeg)
+	{
+		pr := 6
+		if rep.Tier == "thorough" {
+			pr = 100
+		}
+		if !parkedWriterLeg(rep, "C10", "concurrent:slow-writer", pr, 10) {
+			return nil
+		}
 	}
 
 	// (ii) concurrent public API use vs solo results
@@ -393,7 +405,9 @@ func genCorrelated(r *RNG, w, h int) *image.NRGBA {
 	return img
 }
 
-var gmpProcs = []int{1, 2, 3, 5, 8, 16, 32}
+// GOMAXPROCS values of the sweep: 4, 7 and 13 were added after round 3 (a worker's first row is the
+// bottom tile row only for some counts: (T-1) mod ceil(T/G) == 0)
+var gmpProcs = []int{1, 2, 3, 4, 5, 7, 8, 13, 16, 32}
 
 // gmpDecodeSweep decodes one file under every GOMAXPROCS value; results (pixels or error class)
 // must equal the GOMAXPROCS=1 result.  It returns whether the single-CPU decode succeeded.
@@ -468,7 +482,7 @@ func replayGomaxprocsDecode(in map[string]any) int {
 
 // suiteGomaxprocs: C12 — same inputs under GOMAXPROCS 1,2,3,5,8,16,32: identical bytes / pixels.
 func suiteGomaxprocs(rep *Report) error {
-	rep.Rule = "Encode (lossy; lossless with Quality in {25,50,75,80,90,100}) and Decode on inputs large enough to pass every parallel threshold (>=4 macroblock rows, >50000 / >=100000 pixels, >=16 / >=64 histogram tiles, >2 animation frames) plus small ones, under GOMAXPROCS in {1,2,3,5,8,16,32}; image classes: the 8 generic classes, 'noise blocks + large flat areas' (several histogram clusters AND empty histogram tiles; lossless Quality 90/100 so that the histogram remap pass runs), 'correlated colour channels' (the lossless encoder selects the cross-colour transform — confirmed per case with the Lean stream parser, op vp8linfo — at sizes whose rows/GOMAXPROCS is not tile-aligned: 400x404, 512x300, 330x333); decode-only: synthetic VP8L streams (writer SynVP8LCross) with a forced cross-colour transform, tile bits 2..5, optional predictor/subtract-green, >=100000 pixels, prime or odd heights; outputs must be byte/pixel identical to the GOMAXPROCS=1 result; non-trivial = the input crosses at least one parallel threshold (for the cross-colour cases: the stream really contains a cross-colour transform)"
+	rep.Rule = "Encode (lossy; lossless with Quality in {25,50,75,80,90,100}) and Decode on inputs large enough to pass every parallel threshold (>=4 macroblock rows, >50000 / >=100000 pixels, >=16 / >=64 histogram tiles, >2 animation frames) plus small ones, under GOMAXPROCS in {1,2,3,4,5,7,8,13,16,32}; image classes: the 8 generic classes, 'noise blocks + large flat areas' (several histogram clusters AND empty histogram tiles; lossless Quality 90/100 so that the histogram remap pass runs), 'correlated colour channels' (the lossless encoder selects the cross-colour transform — confirmed per case with the Lean stream parser, op vp8linfo — at sizes whose rows/GOMAXPROCS is not tile-aligned: 400x404, 512x300, 330x333), 'tile geometry' (correlated channels at lossless Method 5/6 = 4x4 transform tiles, height = 4(T-1)+1 or +3 with T <= 32 tile rows, widths of every residue mod 4 and 3xN pictures narrower than a tile: 64x51, 96x53, 200x125, 3x67 ... - ragged tiles of 4/9/12 pixels that are the first tile of a worker), sizes on the numeric thresholds of the code (thresholds.go) with cheap content; decode-only: synthetic VP8L streams (writer SynVP8LCross) with a forced cross-colour transform, tile bits 2..5, optional predictor/subtract-green, >=100000 pixels, prime or odd heights; outputs must be byte/pixel identical to the GOMAXPROCS=1 result; non-trivial = the input crosses at least one parallel threshold (for the cross-colour cases: the stream really contains a cross-colour transform)"
 	defer runtime.GOMAXPROCS(runtime.GOMAXPROCS(0))
 	procs := gmpProcs
 	thorough := rep.Tier == "thorough"
@@ -618,6 +632,67 @@ func suiteGomaxprocs(rep *Report) error {
 		}
 		rep.Count("class:correlated-channels")
 		tfProbes = append(tfProbes, tfProbe{desc, ref})
+	}
+
+	// --- (c2) tile geometry: lossless Method 5 / 6 (4x4 transform tiles), correlated channels, sizes derived
+	// from the tile grid instead of from round numbers: height = 4(T-1) + {1,3} (ragged bottom tile row of 1
+	// or 3 pixel rows: tiles of 4, 12 or 9 pixels, not a multiple of the 8-wide inner loops), T <= 32 tile
+	// rows so that for G >= T every tile row is some worker's FIRST row (and for smaller G the bottom row is
+	// for (T-1) mod ceil(T/G) == 0), widths with w mod 4 in {0..3}, and pictures narrower than one tile (3xN:
+	// every tile is ragged and is the first of its row). Small pictures: cheap.
+	{
+		tg := [][2]int{{64, 51}, {96, 53}, {200, 125}, {3, 67}, {64, 49}, {37, 35}, {100, 51}}
+		nTG := 6
+		if thorough {
+			nTG = 60
+		}
+		for k := 0; k < nTG; k++ {
+			r := NewRNG(rep.Seed, uint64(2750000+k))
+			T := 5 + r.Intn(28)
+			tg = append(tg, [2]int{[]int{3, 2, 4*(2+r.Intn(40)) + r.Intn(4), 64, 33}[r.Intn(5)], 4*(T-1) + 1 + 2*r.Intn(2)})
+		}
+		for k, sz := range tg {
+			for _, m := range []int{5, 6} {
+				if !thorough && k >= 7 && m != 5+k%2 {
+					continue
+				}
+				img := genCorrelated(NewRNG(rep.Seed, uint64(2760000+k)), sz[0], sz[1])
+				o := webp.DefaultOptions()
+				o.Lossless = true
+				o.Method = m
+				o.Quality = float32([]int{75, 50, 90, 100}[(k+m)%4])
+				desc := fmt.Sprintf("%dx%d/correlated-channels/tile-geometry lossless=true m=%d q=%v", sz[0], sz[1], o.Method, o.Quality)
+				if _, err := sweep(fmt.Sprintf("tg%d-%d", k, m), img, sz[0], sz[1], o, desc, true); err != nil {
+					return err
+				}
+				rep.Count("class:tile-geometry")
+				rep.Count(fmt.Sprintf("tile-geometry:h%%4=%d,w%%4=%d", sz[1]%4, sz[0]%4))
+			}
+		}
+	}
+
+	// --- (c3) sizes on the numeric thresholds of the code (thresholds.go), cheap content, both codecs ---
+	{
+		nT := 6
+		if thorough {
+			nT = 80
+		}
+		for k, tc := range DrawThresholdCases(rep.Seed, 0x12, nT, ThresholdFilter{MaxPixels: 140000, MinValue: 200}) {
+			r := NewRNG(rep.Seed, uint64(2770000+k))
+			kind := r.Intn(NumCheapClasses)
+			acls := []int{AlphaNone, AlphaGradient, AlphaNone, AlphaSparse}[r.Intn(4)]
+			img := GenCheapImage(r, tc.W, tc.H, kind, acls)
+			o := webp.DefaultOptions()
+			o.Lossless = k%2 == 0
+			o.Method = []int{0, 3, 4, 6}[r.Intn(4)]
+			o.Quality = float32([]int{50, 75, 90}[r.Intn(3)])
+			desc := fmt.Sprintf("%s %s lossless=%v m=%d q=%v", cheapDesc(tc.W, tc.H, kind, acls), tc.String(), o.Lossless, o.Method, o.Quality)
+			if _, err := sweep(fmt.Sprintf("thr%d", k), img, tc.W, tc.H, o, desc, tc.W*tc.H > 50000 || (tc.H+15)/16 >= 4); err != nil {
+				return err
+			}
+			rep.Count("class:threshold")
+			CountThreshold(rep, tc)
+		}
 	}
 
 	// which transforms did the large lossless files really use? (Lean stream parser)
